@@ -370,7 +370,7 @@ def idx_terms(tier):
          ('vsum', ('index_range', 'v', 1, 4)), ('vsum', ('index_range', 'v', 0, 2)),
          ('index', ('index_axis', 'M', 2, 1), 1), ('index', ('index_axis', 'M', 3, 0), 2),
          ('mean', ('index_axis', 'M', 1, 0)), ('mean', ('index_axis', 'M', 0, 1)),
-         ('vsum', ('index', 'v', 'B')), 'r', '2']
+         ('vsum', ('index', 'v', 'B')), ('vsum', 'M'), ('mean', ('index_range', 'M', 1, 3)), 'r', '2']
     if tier != 'quick':
         t += [('index', 'v', 2), ('index', 'v', 3), ('index_2d', 'M', 2, 2), ('mean', ('index_range', 'v', 2, 5)),
               ('index', ('index', 'M', 1), 2), ('vsum', ('index_2d', 'M', 'B', 1))]
